@@ -249,7 +249,16 @@ def rand_uplink(rng, sess):
             size = rng.choice([8, 8, 16, 24, 64, 128]); base = rng.choice([0, 0, 8, (num // 8) * 8])
             if base + size > 255: base = 0
             return n, 0xa2, [base, size] + [rng.choice([0, 0xff, rng.randrange(256)]) for _ in range(size // 8)]
-        # address report
+        # address report; now and then the previous report of this segment again with the orientation bits flipped
+        # (same decoders, other direction: derived train state has to follow although the address set is unchanged)
+        last = getattr(sess, "_last_addr", {})
+        key = (tuple(n), num)
+        if key in last and rng.random() < 0.35:
+            d = list(last[key])
+            for i in range(2, len(d), 2):
+                if not d[i] & 0x40 and rng.random() < 0.8: d[i] ^= 0x80
+            last[key] = d; sess._last_addr = last
+            return n, 0xa3, d
         k = rng.choice([0, 1, 1, 2, 3])
         if rng.random() < 0.2: return n, 0xa3, [num, 0, 0]                      # the "free" form
         lst = []
@@ -257,6 +266,7 @@ def rand_uplink(rng, sess):
             al, ah = dcc_of_train()
             hi = (ah & 0x3F) | rng.choice([0x00, 0x00, 0x80, 0x80, 0x40, 0xC0])    # orientation / accessory marker
             lst += [al, hi]
+        last[key] = [num] + lst; sess._last_addr = last
         return n, 0xa3, [num] + lst
     if kind == "speed":
         al, ah = dcc_of_train(); return node_of(anyb) if anyb else [9], 0xa6, [al, ah | rng.choice([0, 0x80]), bval(rng), bval(rng)]
